@@ -9,8 +9,12 @@
    after autoParent has succeeded every later step is total) - hence Sync after every history of successful calls
    followed by one call with any outcome (C12_after_history).  Still open: continuing after a failed call whose
    partial effects broke well-formedness (a Document::add that throws half-way) and then failing a linking call;
-   that case is explored by the differential run, whose oracle checks Sync after every call, throwing ones included. *)
-From Adm Require Import Heap.Exec gen.PlansGen Heap.PlanChecks Heap.Frame Heap.Writes Heap.Sync Heap.WF Heap.SyncFull.
+   that case is explored by the differential run, whose oracle checks Sync after every call, throwing ones included.
+   (3) Copying: Sync after every history of successful calls of the extended call set - block additions, copy(),
+   Document::deepCopy, deepCopyTo, reassignIds, updateBlockFormatDurations - C12_sync_all_calls (Heap/Joint.v, using
+   the reference images of Heap/CopyRefs.v). *)
+From Adm Require Import Heap.Exec gen.PlansGen Heap.PlanChecks Heap.Frame Heap.Writes Heap.Sync Heap.WF Heap.SyncFull Heap.More
+  Heap.WFExt Heap.CopyRefs Heap.Joint.
 
 Theorem C12_plans_recognised : plans_problems = [] /\ add_plan_complete gen_plans = true /\ plans_typed gen_plans = true.
 Proof. exact (conj plans_recognised (conj gen_add_plan_complete gen_plans_typed)). Qed.
@@ -79,3 +83,17 @@ Proof.
   exact (sync_after_history gen_plans gen_add_plan_complete gen_remove_plan_complete gen_plans_typed eq_refl).
 Qed.
 Print Assumptions C12_after_history.
+
+(* copies included: every history of successful calls of the extended call set *)
+Theorem C12_sync_all_calls : forall ops s', xrun_succ gen_plans ops empty_state = Some s' -> Sync s'.
+Proof.
+  exact (fun ops s' H => proj1 (proj2 (joint_invariant gen_plans gen_add_plan_complete gen_remove_plan_complete gen_plans_typed
+                                         eq_refl ops empty_state s' empty_G H))).
+Qed.
+Print Assumptions C12_sync_all_calls.
+
+(* deepCopy of a synchronised, well-formed source is synchronised *)
+Theorem C12_deep_copy_keeps_sync : forall d dnew base s s' u, deep_copy gen_plans d dnew base s = (s', inl u) ->
+  WF s -> Sync s -> ObjDisjoint s -> Sync s'.
+Proof. exact (fun d dnew base s s' u H W Sy Dj => proj1 (proj2 (CopyInv.deep_copy_inv gen_plans d dnew base s s' u H W Sy Dj))). Qed.
+Print Assumptions C12_deep_copy_keeps_sync.
